@@ -154,6 +154,8 @@ func goEnv() []string {
 func preludeDecls(pkg string) string {
 	return "package " + pkg + `
 
+import vsync "sync"
+
 func vU8(name string) uint8
 func vU16(name string) uint16
 func vU32(name string) uint32
@@ -173,6 +175,50 @@ func vInsertionSort(n int, less func(i, j int) bool, swap func(i, j int)) {
 	for i := 1; i < n; i++ {
 		for j := i; j > 0 && less(j, j-1); j-- {
 			swap(j, j-1)
+		}
+	}
+}
+
+// model of sync.Map: one ordinary map per sync.Map value (single-threaded engine; iteration order
+// is insertion order)
+var vSyncMaps = map[*vsync.Map]map[any]any{}
+
+func vSyncMapGet(m *vsync.Map) map[any]any {
+	mm := vSyncMaps[m]
+	if mm == nil {
+		mm = map[any]any{}
+		vSyncMaps[m] = mm
+	}
+	return mm
+}
+func vSyncMapLoad(m *vsync.Map, k any) (any, bool) { v, ok := vSyncMapGet(m)[k]; return v, ok }
+func vSyncMapStore(m *vsync.Map, k, v any)         { vSyncMapGet(m)[k] = v }
+func vSyncMapDelete(m *vsync.Map, k any)           { delete(vSyncMapGet(m), k) }
+func vSyncMapClear(m *vsync.Map)                   { vSyncMaps[m] = map[any]any{} }
+func vSyncMapLoadOrStore(m *vsync.Map, k, v any) (any, bool) {
+	mm := vSyncMapGet(m)
+	if old, ok := mm[k]; ok {
+		return old, true
+	}
+	mm[k] = v
+	return v, false
+}
+func vSyncMapLoadAndDelete(m *vsync.Map, k any) (any, bool) {
+	mm := vSyncMapGet(m)
+	old, ok := mm[k]
+	delete(mm, k)
+	return old, ok
+}
+func vSyncMapSwap(m *vsync.Map, k, v any) (any, bool) {
+	mm := vSyncMapGet(m)
+	old, ok := mm[k]
+	mm[k] = v
+	return old, ok
+}
+func vSyncMapRange(m *vsync.Map, f func(k, v any) bool) {
+	for k, v := range vSyncMapGet(m) {
+		if !f(k, v) {
+			break
 		}
 	}
 }
